@@ -35,12 +35,13 @@ import (
 
 	"github.com/mgtv-tech/redis-GunYu/config"
 	"github.com/mgtv-tech/redis-GunYu/pkg/log"
+	usync "github.com/mgtv-tech/redis-GunYu/pkg/sync"
 	"github.com/mgtv-tech/redis-GunYu/pkg/vfutil"
 )
 
 // ---------------------------------------------------------------- world
 
-func vfPrf(seed uint64, n int64) byte {
+func vf6Prf(seed uint64, n int64) byte {
 	if n < 0 {
 		n = 0
 	}
@@ -48,20 +49,20 @@ func vfPrf(seed uint64, n int64) byte {
 	return byte(((seed + 31*m + 17*(m/7)) * 2654435761 / 65536) % 256)
 }
 
-func vfPrfSnap(seed uint64, off int64, i int64) byte {
+func vf6PrfSnap(seed uint64, off int64, i int64) byte {
 	if off < 0 {
 		off = 0
 	}
 	return byte(((seed*3 + uint64(off)*131 + 7*uint64(i) + 5*(uint64(i)/3)) * 2654435761 / 65536) % 256)
 }
 
-type vfWorld struct {
+type vf6World struct {
 	id1, id2       string
 	switchOff      int64
 	sb, s1, s2, so uint64
 }
 
-func (w *vfWorld) seedOf(id string) uint64 {
+func (w *vf6World) seedOf(id string) uint64 {
 	if id == w.id1 {
 		return w.s1
 	}
@@ -72,14 +73,14 @@ func (w *vfWorld) seedOf(id string) uint64 {
 }
 
 // hist(id)[n]: the byte consumed when going from offset n to n+1
-func (w *vfWorld) hist(id string, n int64) byte {
+func (w *vf6World) hist(id string, n int64) byte {
 	if (id == w.id1 || id == w.id2) && n < w.switchOff {
-		return vfPrf(w.sb, n)
+		return vf6Prf(w.sb, n)
 	}
-	return vfPrf(w.seedOf(id), n)
+	return vf6Prf(w.seedOf(id), n)
 }
 
-func (w *vfWorld) histRange(id string, from, to int64) []byte {
+func (w *vf6World) histRange(id string, from, to int64) []byte {
 	if to <= from {
 		return nil
 	}
@@ -90,20 +91,20 @@ func (w *vfWorld) histRange(id string, from, to int64) []byte {
 	return b
 }
 
-func (w *vfWorld) snapBytes(id string, off int64, size int64) []byte {
+func (w *vf6World) snapBytes(id string, off int64, size int64) []byte {
 	if size <= 0 {
 		return nil
 	}
 	b := make([]byte, size)
 	for i := range b {
-		b[i] = vfPrfSnap(w.seedOf(id), off, int64(i))
+		b[i] = vf6PrfSnap(w.seedOf(id), off, int64(i))
 	}
 	return b
 }
 
 // ---------------------------------------------------------------- source double
 
-type vfSource struct {
+type vf6Source struct {
 	id1, id2  string
 	switchOff int64 // second_replid_offset - 1
 	backlog   bool
@@ -114,7 +115,7 @@ type vfSource struct {
 	capaId    bool
 	k         int64 // bytes produced after the reply
 	heartbeat bool
-	w         *vfWorld
+	w         *vf6World
 
 	mu     sync.Mutex
 	psync  []string // "<id> <off>" as received
@@ -124,7 +125,7 @@ type vfSource struct {
 }
 
 // Redis replication.c masterTryPartialResynchronization (independent of the Lean text)
-func (s *vfSource) admit(reqId string, off int64) bool {
+func (s *vf6Source) admit(reqId string, off int64) bool {
 	if !strings.EqualFold(reqId, s.id1) &&
 		(!strings.EqualFold(reqId, s.id2) || off > s.switchOff+1) {
 		return false
@@ -135,7 +136,7 @@ func (s *vfSource) admit(reqId string, off int64) bool {
 	return true
 }
 
-func vfReadCmd(br *bufio.Reader) ([]string, error) {
+func vf6ReadCmd(br *bufio.Reader) ([]string, error) {
 	line, err := br.ReadString('\n')
 	if err != nil {
 		return nil, err
@@ -174,7 +175,7 @@ func vfReadCmd(br *bufio.Reader) ([]string, error) {
 	return args, nil
 }
 
-func (s *vfSource) serve(c net.Conn) {
+func (s *vf6Source) serve(c net.Conn) {
 	defer c.Close()
 	s.mu.Lock()
 	s.conns++
@@ -182,7 +183,7 @@ func (s *vfSource) serve(c net.Conn) {
 	br := bufio.NewReader(c)
 	bw := bufio.NewWriter(c)
 	for {
-		args, err := vfReadCmd(br)
+		args, err := vf6ReadCmd(br)
 		if err != nil {
 			return
 		}
@@ -259,19 +260,19 @@ func (s *vfSource) serve(c net.Conn) {
 	}
 }
 
-func (s *vfSource) setReply(r string) { s.mu.Lock(); s.reply = r; s.mu.Unlock() }
+func (s *vf6Source) setReply(r string) { s.mu.Lock(); s.reply = r; s.mu.Unlock() }
 
-type vfListener struct {
+type vf6Listener struct {
 	ln  net.Listener
-	cur atomic.Pointer[vfSource]
+	cur atomic.Pointer[vf6Source]
 }
 
-func vfNewListener() (*vfListener, error) {
+func vf6NewListener() (*vf6Listener, error) {
 	ln, err := net.Listen("tcp", "127.0.0.1:0")
 	if err != nil {
 		return nil, err
 	}
-	l := &vfListener{ln: ln}
+	l := &vf6Listener{ln: ln}
 	go func() {
 		for {
 			c, err := ln.Accept()
@@ -291,10 +292,10 @@ func vfNewListener() (*vfListener, error) {
 
 // ---------------------------------------------------------------- recording output
 
-type vfOutput struct {
+type vf6Output struct {
 	sp        StartPoint
 	final     int64 // last stream offset the source will have produced
-	proxy     *vfChan
+	proxy     *vf6Chan
 	mu        sync.Mutex
 	spIds     [][]string
 	setRunIds []string
@@ -309,23 +310,23 @@ type vfOutput struct {
 	ingested  bool
 }
 
-func (o *vfOutput) StartPoint(ctx context.Context, ids []string) (StartPoint, error) {
+func (o *vf6Output) StartPoint(ctx context.Context, ids []string) (StartPoint, error) {
 	o.mu.Lock()
 	o.spIds = append(o.spIds, append([]string(nil), ids...))
 	o.mu.Unlock()
 	return o.sp, nil
 }
 
-func (o *vfOutput) SetRunId(ctx context.Context, id string) error {
+func (o *vf6Output) SetRunId(ctx context.Context, id string) error {
 	o.mu.Lock()
 	o.setRunIds = append(o.setRunIds, id)
 	o.mu.Unlock()
 	return nil
 }
 
-func (o *vfOutput) Close() {}
+func (o *vf6Output) Close() {}
 
-func (o *vfOutput) Send(ctx context.Context, reader ChannelReader) error {
+func (o *vf6Output) Send(ctx context.Context, reader ChannelReader) error {
 	o.mu.Lock()
 	o.sent = true
 	o.left = reader.Left()
@@ -355,8 +356,9 @@ func (o *vfOutput) Send(ctx context.Context, reader ChannelReader) error {
 	select {
 	case <-done:
 	case <-time.After(5 * time.Second):
+		reader.Close()
+		<-done
 		rerr = fmt.Errorf("timeout")
-		<-func() chan struct{} { reader.Close(); return done }()
 	}
 	o.mu.Lock()
 	o.got = buf[:n]
@@ -386,7 +388,7 @@ func (o *vfOutput) Send(ctx context.Context, reader ChannelReader) error {
 
 // ---------------------------------------------------------------- recording channel proxy
 
-type vfChan struct {
+type vf6Chan struct {
 	inner Channel
 	mu    sync.Mutex
 	sp    []StartPoint
@@ -402,51 +404,51 @@ type vfChan struct {
 	aofO  atomic.Int64
 }
 
-func (p *vfChan) aofWriterSeen() bool  { return p.aofW.Load() }
-func (p *vfChan) aofWriterOff() int64  { return p.aofO.Load() }
-func (p *vfChan) rec(f func())         { p.mu.Lock(); f(); p.mu.Unlock() }
-func (p *vfChan) RunId() string        { return p.inner.RunId() }
-func (p *vfChan) Close() error         { return nil }
-func vfB(b bool) string {
+func (p *vf6Chan) aofWriterSeen() bool  { return p.aofW.Load() }
+func (p *vf6Chan) aofWriterOff() int64  { return p.aofO.Load() }
+func (p *vf6Chan) rec(f func())         { p.mu.Lock(); f(); p.mu.Unlock() }
+func (p *vf6Chan) RunId() string        { return p.inner.RunId() }
+func (p *vf6Chan) Close() error         { return nil }
+func vf6B(b bool) string {
 	if b {
 		return "1"
 	}
 	return "0"
 }
 
-func (p *vfChan) StartPoint(ids []string) (StartPoint, error) {
+func (p *vf6Chan) StartPoint(ids []string) (StartPoint, error) {
 	sp, err := p.inner.StartPoint(ids)
 	p.rec(func() { p.sp = append(p.sp, sp) })
 	return sp, err
 }
-func (p *vfChan) SetRunId(id string) error {
+func (p *vf6Chan) SetRunId(id string) error {
 	p.rec(func() { p.sets = append(p.sets, id) })
 	return p.inner.SetRunId(id)
 }
-func (p *vfChan) DelRunId(id string) error {
+func (p *vf6Chan) DelRunId(id string) error {
 	p.rec(func() { p.dels = append(p.dels, id) })
 	return p.inner.DelRunId(id)
 }
-func (p *vfChan) IsValidOffset(o Offset) bool {
+func (p *vf6Chan) IsValidOffset(o Offset) bool {
 	v := p.inner.IsValidOffset(o)
-	p.rec(func() { p.valid = append(p.valid, fmt.Sprintf("%s:%d=%s", o.RunId, o.Offset, vfB(v))) })
+	p.rec(func() { p.valid = append(p.valid, fmt.Sprintf("%s:%d=%s", o.RunId, o.Offset, vf6B(v))) })
 	return v
 }
-func (p *vfChan) GetOffsetRange(id string) (int64, int64) {
+func (p *vf6Chan) GetOffsetRange(id string) (int64, int64) {
 	l, r := p.inner.GetOffsetRange(id)
 	p.rec(func() { p.rngq = append(p.rngq, fmt.Sprintf("%d,%d", l, r)) })
 	return l, r
 }
-func (p *vfChan) GetRdb(id string) (int64, int64) {
+func (p *vf6Chan) GetRdb(id string) (int64, int64) {
 	l, s := p.inner.GetRdb(id)
 	p.rec(func() { p.rdbq = append(p.rdbq, fmt.Sprintf("%d,%d", l, s)) })
 	return l, s
 }
-func (p *vfChan) NewRdbWriter(r io.Reader, off int64, size int64) (RdbChannelWriter, error) {
+func (p *vf6Chan) NewRdbWriter(r io.Reader, off int64, size int64) (RdbChannelWriter, error) {
 	p.rec(func() { p.wr = append(p.wr, fmt.Sprintf("rdb:%d:%d", off, size)) })
 	return p.inner.NewRdbWriter(r, off, size)
 }
-func (p *vfChan) NewAofWritter(r io.Reader, off int64) (AofChannelWriter, error) {
+func (p *vf6Chan) NewAofWritter(r io.Reader, off int64) (AofChannelWriter, error) {
 	w, err := p.inner.NewAofWritter(r, off)
 	p.rec(func() {
 		if err != nil {
@@ -461,7 +463,7 @@ func (p *vfChan) NewAofWritter(r io.Reader, off int64) (AofChannelWriter, error)
 	}
 	return w, err
 }
-func (p *vfChan) NewReader(o Offset) (ChannelReader, error) {
+func (p *vf6Chan) NewReader(o Offset) (ChannelReader, error) {
 	r, err := p.inner.NewReader(o)
 	p.rec(func() {
 		p.rd = append(p.rd, fmt.Sprintf("%d", o.Offset))
@@ -477,11 +479,11 @@ func (p *vfChan) NewReader(o Offset) (ChannelReader, error) {
 
 // ---------------------------------------------------------------- case
 
-type vfCase struct {
+type vf6Case struct {
 	backend string // "d" | "m"
 	fresh   bool   // disk: reopen the store (process restart) before the round
 	logSize int64
-	src     vfSource // parameters only
+	src     vf6Source // parameters only
 	sp      StartPoint
 	cRun    string
 	hasRdb  bool
@@ -496,31 +498,31 @@ type vfCase struct {
 	so      uint64
 }
 
-func vfOpt(has bool, v int64) string {
+func vf6Opt(has bool, v int64) string {
 	if !has {
 		return "x"
 	}
 	return strconv.FormatInt(v, 10)
 }
 
-func (c *vfCase) opLine(tag string) string {
+func (c *vf6Case) opLine(tag string) string {
 	s := &c.src
 	return fmt.Sprintf("sync %s %s %s %s %d %s %d %d %d %d %s %d %s %d %s %s %s %s %s %d %d %d %d %s %d %s",
-		tag, c.backend, vfutil.HexS(s.id1), vfutil.HexS(s.id2), s.switchOff, vfB(s.backlog), s.first, s.blen, s.master,
-		s.snapLen, vfB(s.capaId), s.k, vfutil.HexS(c.sp.RunId), c.sp.Offset, vfutil.HexS(c.cRun),
-		vfOpt(c.hasRdb, c.rdbLeft), vfOpt(c.hasRdb, c.rdbSize), vfOpt(c.hasAof, c.aofL), vfOpt(c.hasAof, c.aofR),
-		c.sb, c.s1, c.s2, c.so, vfB(c.fresh), c.logSize, vfB(s.heartbeat))
+		tag, c.backend, vfutil.HexS(s.id1), vfutil.HexS(s.id2), s.switchOff, vf6B(s.backlog), s.first, s.blen, s.master,
+		s.snapLen, vf6B(s.capaId), s.k, vfutil.HexS(c.sp.RunId), c.sp.Offset, vfutil.HexS(c.cRun),
+		vf6Opt(c.hasRdb, c.rdbLeft), vf6Opt(c.hasRdb, c.rdbSize), vf6Opt(c.hasAof, c.aofL), vf6Opt(c.hasAof, c.aofR),
+		c.sb, c.s1, c.s2, c.so, vf6B(c.fresh), c.logSize, vf6B(s.heartbeat))
 }
 
-func vfParseCase(line string) (*vfCase, error) {
+func vf6ParseCase(line string) (*vf6Case, error) {
 	f := strings.Fields(line)
 	if len(f) < 27 || f[0] != "sync" {
 		return nil, fmt.Errorf("bad case line")
 	}
 	i64 := func(s string) int64 { v, _ := strconv.ParseInt(s, 10, 64); return v }
 	u64 := func(s string) uint64 { v, _ := strconv.ParseUint(s, 10, 64); return v }
-	c := &vfCase{backend: f[2]}
-	c.src = vfSource{id1: string(vfutil.UnHex(f[3])), id2: string(vfutil.UnHex(f[4])), switchOff: i64(f[5]), backlog: f[6] == "1",
+	c := &vf6Case{backend: f[2]}
+	c.src = vf6Source{id1: string(vfutil.UnHex(f[3])), id2: string(vfutil.UnHex(f[4])), switchOff: i64(f[5]), backlog: f[6] == "1",
 		first: i64(f[7]), blen: i64(f[8]), master: i64(f[9]), snapLen: i64(f[10]), capaId: f[11] == "1", k: i64(f[12])}
 	c.sp = StartPoint{RunId: string(vfutil.UnHex(f[13])), Offset: i64(f[14])}
 	c.cRun = string(vfutil.UnHex(f[15]))
@@ -537,16 +539,16 @@ func vfParseCase(line string) (*vfCase, error) {
 	return c, nil
 }
 
-func (c *vfCase) world() *vfWorld {
-	return &vfWorld{id1: c.src.id1, id2: c.src.id2, switchOff: c.src.switchOff, sb: c.sb, s1: c.s1, s2: c.s2, so: c.so}
+func (c *vf6Case) world() *vf6World {
+	return &vf6World{id1: c.src.id1, id2: c.src.id2, switchOff: c.src.switchOff, sb: c.sb, s1: c.s1, s2: c.s2, so: c.so}
 }
 
 // ---------------------------------------------------------------- harness
 
-type vfH struct {
+type vf6H struct {
 	t      *testing.T
 	s      *vfutil.Session
-	ln     *vfListener
+	ln     *vf6Listener
 	tmp    string
 	nOps   int
 	nCase  int
@@ -554,7 +556,7 @@ type vfH struct {
 	slowMs int64
 }
 
-func (h *vfH) newChannel(c *vfCase, dir string) Channel {
+func (h *vf6H) newChannel(c *vf6Case, dir string) Channel {
 	if c.backend == "m" {
 		return NewMemoryChannel(MemoryConf{InputId: "vf", MaxSize: 0, LogSize: c.logSize})
 	}
@@ -562,7 +564,7 @@ func (h *vfH) newChannel(c *vfCase, dir string) Channel {
 }
 
 // build the cache content through the channel's own writers
-func (h *vfH) populate(c *vfCase, ch Channel, w *vfWorld) error {
+func (h *vf6H) populate(c *vf6Case, ch Channel, w *vf6World) error {
 	if c.cRun == "" {
 		return nil
 	}
@@ -596,24 +598,24 @@ func (h *vfH) populate(c *vfCase, ch Channel, w *vfWorld) error {
 	return nil
 }
 
-type vfRound struct {
+type vf6Round struct {
 	delivered string // "stream" | "snapshot" | "none"
 	left      int64
 	size      int64
 	runId     string
 	final     int64
 	full      bool
-	after     vfCase // cache fields describe the cache after the round
+	after     vf6Case // cache fields describe the cache after the round
 }
 
-func vfLast(xs []string, def string) string {
+func vf6Last(xs []string, def string) string {
 	if len(xs) == 0 {
 		return def
 	}
 	return xs[len(xs)-1]
 }
 
-func (h *vfH) round(c *vfCase, inner Channel, replay map[string]interface{}) *vfRound {
+func (h *vf6H) round(c *vf6Case, inner Channel, replay map[string]interface{}) *vf6Round {
 	s := h.s
 	tag := fmt.Sprintf("#%d", h.nOps)
 	h.nOps++
@@ -633,11 +635,11 @@ func (h *vfH) round(c *vfCase, inner Channel, replay map[string]interface{}) *vf
 	ql, qs := inner.GetRdb(c.cRun)
 	rl, rr := inner.GetOffsetRange(c.cRun)
 	qline := fmt.Sprintf("%s q sp=%s:%d valid=%s validq=%s rdb=%d,%d range=%d,%d", tag, vfutil.HexS(q0.RunId), q0.Offset,
-		vfB(qv), vfB(qq), ql, qs, rl, rr)
+		vf6B(qv), vf6B(qq), ql, qs, rl, rr)
 
 	// ---- the real input against double, proxy and recording output
-	proxy := &vfChan{inner: inner}
-	out := &vfOutput{sp: c.sp, final: final, proxy: proxy}
+	proxy := &vf6Chan{inner: inner}
+	out := &vf6Output{sp: c.sp, final: final, proxy: proxy}
 	ri := NewRedisInput(h.inCfg)
 	ri.SetOutput(out)
 	ri.SetChannel(proxy)
@@ -673,7 +675,7 @@ func (h *vfH) round(c *vfCase, inner Channel, replay map[string]interface{}) *vf
 		br = 1
 	case len(proxy.valid) > 0:
 		br = 2
-	case len(proxy.rdbq) > 0 && proxy.rdbq[0] != "-1,-1" && !strings.HasPrefix(proxy.rdbq[0], "-1,") && !strings.HasSuffix(proxy.rdbq[0], ",-1"):
+	case len(proxy.rdbq) > 0 && !strings.HasPrefix(proxy.rdbq[0], "-1,") && !strings.HasSuffix(proxy.rdbq[0], ",-1"):
 		br = 4
 	case len(proxy.rdbq) > 0:
 		br = 5
@@ -682,10 +684,10 @@ func (h *vfH) round(c *vfCase, inner Channel, replay map[string]interface{}) *vf
 	default:
 		br = 3
 	}
-	rid := vfLast(proxy.sets, "")
-	mline := fmt.Sprintf("%s meta br=%d psync=%s reply=%s full=%s del=%s rid=%s", tag, br, psy, reply, vfB(full),
-		vfB(len(proxy.dels) > 0), vfutil.HexS(rid))
-	if orid := vfLast(out.setRunIds, ""); orid != rid {
+	rid := vf6Last(proxy.sets, "")
+	mline := fmt.Sprintf("%s meta br=%d psync=%s reply=%s full=%s del=%s rid=%s", tag, br, psy, reply, vf6B(full),
+		vf6B(len(proxy.dels) > 0), vfutil.HexS(rid))
+	if orid := vf6Last(out.setRunIds, ""); orid != rid {
 		mline += " !output.SetRunId=" + vfutil.HexS(orid)
 	}
 	if len(psyncs) != 1 {
@@ -716,7 +718,7 @@ func (h *vfH) round(c *vfCase, inner Channel, replay map[string]interface{}) *vf
 
 	// ---- bytes
 	var bline string
-	res := &vfRound{final: final, full: full, runId: out.runId, left: out.left, size: out.size}
+	res := &vf6Round{final: final, full: full, runId: out.runId, left: out.left, size: out.size}
 	first := out.got
 	if len(first) > 64 {
 		first = first[:64]
@@ -798,7 +800,7 @@ func (h *vfH) round(c *vfCase, inner Channel, replay map[string]interface{}) *vf
 	s.Count("cache_" + shape)
 	s.Count("stored_vs_cache_" + rel)
 	s.Count("backlog_" + blk)
-	s.Distinct(fmt.Sprintf("%s|%s|%s|%s|%s|%s|%d|%s|%s", c.backend, spk, ck, shape, rel, blk, br, vfB(full), res.delivered))
+	s.Distinct(fmt.Sprintf("%s|%s|%s|%s|%s|%s|%d|%s|%s", c.backend, spk, ck, shape, rel, blk, br, vf6B(full), res.delivered))
 
 	// ---- monitor (independent of the Lean model)
 	rp := func(extra string) map[string]interface{} {
@@ -894,7 +896,7 @@ func (h *vfH) round(c *vfCase, inner Channel, replay map[string]interface{}) *vf
 			}
 			if rdr, err := inner.NewReader(Offset{RunId: arid, Offset: from}); err == nil {
 				if rdr.IsAof() {
-					wc := vfNewWait()
+					wc := vf6NewWait()
 					rdr.Start(wc)
 					buf := make([]byte, cr-from)
 					done := make(chan error, 1)
@@ -936,18 +938,13 @@ func (h *vfH) round(c *vfCase, inner Channel, replay map[string]interface{}) *vf
 	return res
 }
 
-func vfNewWait() interface {
-	Close(error) bool
-	WgWait()
-} {
-	return nil
-}
+func vf6NewWait() usync.WaitCloser { return usync.NewWaitCloser(nil) }
 
-func vfHexId(r *vfutil.Rand) string { return hex.EncodeToString(r.Bytes(20)) }
+func vf6HexId(r *vfutil.Rand) string { return hex.EncodeToString(r.Bytes(20)) }
 
-const vfZeroId = "0000000000000000000000000000000000000000"
+const vf6ZeroId = "0000000000000000000000000000000000000000"
 
-func vfClamp(v int64) int64 {
+func vf6Clamp(v int64) int64 {
 	if v < 0 {
 		return 0
 	}
@@ -955,8 +952,8 @@ func vfClamp(v int64) int64 {
 }
 
 // generated (Source, stored position, cache) triple
-func vfGenCase(r *vfutil.Rand) *vfCase {
-	c := &vfCase{backend: "d"}
+func vf6GenCase(r *vfutil.Rand) *vf6Case {
+	c := &vf6Case{backend: "d"}
 	if r.Bool() {
 		c.backend = "m"
 	}
@@ -966,7 +963,7 @@ func vfGenCase(r *vfutil.Rand) *vfCase {
 	}
 	c.sb, c.s1, c.s2, c.so = uint64(r.Range(1, 99999)), uint64(r.Range(1, 99999)), uint64(r.Range(1, 99999)), uint64(r.Range(1, 99999))
 	s := &c.src
-	s.id1 = vfHexId(r)
+	s.id1 = vf6HexId(r)
 	s.capaId = !r.Chance(1, 10)
 	s.heartbeat = r.Chance(1, 6)
 	s.snapLen = int64(r.Range(1, 300))
@@ -979,13 +976,13 @@ func vfGenCase(r *vfutil.Rand) *vfCase {
 		base = int64(r.Range(0, 3))
 	}
 	if r.Chance(2, 5) { // failover: previous id valid up to switchOff
-		s.id2 = vfHexId(r)
+		s.id2 = vf6HexId(r)
 		s.switchOff = base + int64(r.Intn(400))
 	} else {
-		s.id2 = vfZeroId
+		s.id2 = vf6ZeroId
 		s.switchOff = -2 // second_replid_offset = -1
 	}
-	s.master = vfClamp(s.switchOff) + int64(r.Intn(600))
+	s.master = vf6Clamp(s.switchOff) + int64(r.Intn(600))
 	if s.master < base {
 		s.master = base + int64(r.Intn(600))
 	}
@@ -1004,7 +1001,7 @@ func vfGenCase(r *vfutil.Rand) *vfCase {
 	}
 	s.blen = s.master + 1 - s.first
 
-	other := vfHexId(r)
+	other := vf6HexId(r)
 	// cache
 	switch r.Intn(10) {
 	case 0:
@@ -1012,7 +1009,7 @@ func vfGenCase(r *vfutil.Rand) *vfCase {
 	case 1, 2:
 		c.cRun = other
 	case 3, 4, 5:
-		if s.id2 != vfZeroId {
+		if s.id2 != vf6ZeroId {
 			c.cRun = s.id2
 		} else {
 			c.cRun = s.id1
@@ -1024,9 +1021,9 @@ func vfGenCase(r *vfutil.Rand) *vfCase {
 		s.master - 1, s.master, s.master + 1, s.master + 40, base, base + 100}
 	pick := func() int64 {
 		if r.Chance(1, 3) {
-			return vfClamp(int64(r.Range(0, int(s.master)+60)))
+			return vf6Clamp(int64(r.Range(0, int(s.master)+60)))
 		}
-		return vfClamp(vfutil.Pick(r, points) + int64(r.Range(-2, 2))*int64(r.Intn(2)))
+		return vf6Clamp(vfutil.Pick(r, points) + int64(r.Range(-2, 2))*int64(r.Intn(2)))
 	}
 	if c.cRun != "" {
 		switch r.Intn(8) {
@@ -1064,11 +1061,11 @@ func vfGenCase(r *vfutil.Rand) *vfCase {
 	case 2:
 		c.sp.RunId = other
 		if r.Bool() {
-			c.sp.RunId = vfHexId(r)
+			c.sp.RunId = vf6HexId(r)
 		}
 	case 3, 4, 5:
 		c.sp.RunId = s.id2
-		if s.id2 == vfZeroId {
+		if s.id2 == vf6ZeroId {
 			c.sp.RunId = s.id1
 		}
 	default:
@@ -1083,9 +1080,9 @@ func vfGenCase(r *vfutil.Rand) *vfCase {
 			pts = append(pts, c.rdbLeft-1, c.rdbLeft, c.rdbLeft+1, c.rdbLeft-c.rdbSize)
 		}
 		if r.Chance(1, 4) {
-			c.sp.Offset = vfClamp(int64(r.Range(0, int(s.master)+60)))
+			c.sp.Offset = vf6Clamp(int64(r.Range(0, int(s.master)+60)))
 		} else {
-			c.sp.Offset = vfClamp(vfutil.Pick(r, pts))
+			c.sp.Offset = vf6Clamp(vfutil.Pick(r, pts))
 		}
 	}
 	if c.backend == "d" && r.Chance(1, 3) {
@@ -1095,7 +1092,7 @@ func vfGenCase(r *vfutil.Rand) *vfCase {
 }
 
 // follow-up connection in the same process: same source lineage, advanced
-func vfNextCase(r *vfutil.Rand, prev *vfCase, res *vfRound) *vfCase {
+func vf6NextCase(r *vfutil.Rand, prev *vf6Case, res *vf6Round) *vf6Case {
 	c := res.after // copy
 	s := &c.src
 	s.master = res.final
@@ -1124,7 +1121,7 @@ func vfNextCase(r *vfutil.Rand, prev *vfCase, res *vfRound) *vfCase {
 		c.sp = prev.sp
 	}
 	if r.Chance(1, 8) {
-		c.sp.Offset = vfClamp(c.sp.Offset + int64(r.Range(-30, 30)))
+		c.sp.Offset = vf6Clamp(c.sp.Offset + int64(r.Range(-30, 30)))
 	}
 	if r.Chance(1, 12) {
 		c.sp = StartPoint{RunId: "?", Offset: -1}
@@ -1143,7 +1140,7 @@ func TestVerifC06(t *testing.T) {
 	}
 	defer os.RemoveAll(tmp)
 
-	ln, err := vfNewListener()
+	ln, err := vf6NewListener()
 	if err != nil {
 		t.Fatal(err)
 	}
@@ -1161,9 +1158,9 @@ func TestVerifC06(t *testing.T) {
 	}
 	log.InitLog(config.LogConfig{LevelStr: "panic", Handler: config.LogHandlerConfig{StdOut: true}})
 
-	h := &vfH{t: t, s: s, ln: ln, tmp: tmp, inCfg: *config.GetSyncerConfig().Input.Redis}
+	h := &vf6H{t: t, s: s, ln: ln, tmp: tmp, inCfg: *config.GetSyncerConfig().Input.Redis}
 
-	runCase := func(c *vfCase, srcTag string, rounds int) {
+	runCase := func(c *vf6Case, srcTag string, rounds int) {
 		h.nCase++
 		dir := filepath.Join(tmp, fmt.Sprintf("c%d", h.nCase))
 		os.MkdirAll(dir, 0o777)
@@ -1189,7 +1186,7 @@ func TestVerifC06(t *testing.T) {
 		for i := 0; i < rounds; i++ {
 			res := h.round(cur, ch, map[string]interface{}{"round": i})
 			if i+1 < rounds {
-				cur = vfNextCase(r, cur, res)
+				cur = vf6NextCase(r, cur, res)
 				s.Count("followup_rounds")
 			}
 		}
@@ -1198,14 +1195,14 @@ func TestVerifC06(t *testing.T) {
 	}
 
 	for _, l := range vfutil.Corpus("C06") {
-		c, err := vfParseCase(l)
+		c, err := vf6ParseCase(l)
 		if err != nil {
 			t.Fatalf("corpus line: %v: %s", err, l)
 		}
 		runCase(c, "corpus", 1)
 	}
 	if rp := os.Getenv("VERIF_REPLAY_CASE"); rp != "" {
-		c, err := vfParseCase(rp)
+		c, err := vf6ParseCase(rp)
 		if err != nil {
 			t.Fatal(err)
 		}
@@ -1214,7 +1211,7 @@ func TestVerifC06(t *testing.T) {
 	}
 	n := vfutil.Scale(1200, 20000)
 	for i := 0; i < n; i++ {
-		c := vfGenCase(r)
+		c := vf6GenCase(r)
 		rounds := 1
 		if r.Chance(1, 3) {
 			rounds = 2 + r.Intn(2)
